@@ -1,0 +1,7 @@
+//go:build !verif
+
+package reader
+
+import "github.com/zilliztech/milvus-cdc/core/api"
+
+func verifPoint(string, string, *api.ReplicateMsg) {}
